@@ -317,3 +317,30 @@ Definition lstep_local (limit : N) (r : lrun) : option (N * lrun) :=
     Some (limit, {| l_pc := 2; l_override := l_override r;
                     l_used := Some (match l_override r with Some m => m | None => limit end) |})
   else None.
+
+(* (c) the successor list of a completed node put together by appending the run's branch
+   selection ONTO the compiled edge slice (compose/graph_run.go resolveCompletedTasks written as
+   uniqueKeys(append(t.call.writeTo, nextNodeKeys...)); seeded change
+   C09-successors-appended-onto-shared-edge-slice).  The edge slice was built by repeated append
+   at graph-construction time, so with 3 or 5-7 edges it has spare capacity and the append
+   writes the slot after its length in the SHARED backing array.  The store is that backing
+   array up to its capacity: the compiled edges and the spare slot (0 = the zero value).
+   pc 0: write the selection of THIS run into the spare slot; pc 1: read the slice back (the
+   successors the run goes on with). *)
+Record aslice : Type := { as_edges : list N; as_spare : N }.
+Record arun : Type := { a_pc : N; a_sel : N; a_used : option (list N) }.
+
+Definition astep_shared (s : aslice) (r : arun) : option (aslice * arun) :=
+  if N.eqb (a_pc r) 0 then
+    Some ({| as_edges := as_edges s; as_spare := a_sel r |}, {| a_pc := 1; a_sel := a_sel r; a_used := None |})
+  else if N.eqb (a_pc r) 1 then
+    Some (s, {| a_pc := 2; a_sel := a_sel r; a_used := Some (as_edges s ++ [as_spare s]) |})
+  else None.
+
+(* the code as it is: the selections come first and the compiled edges are appended to THEM
+   (append(nextNodeKeys, t.call.writeTo...)): the list is the run's own, the record is only read *)
+Definition astep_local (s : aslice) (r : arun) : option (aslice * arun) :=
+  if N.eqb (a_pc r) 0 then Some (s, {| a_pc := 1; a_sel := a_sel r; a_used := None |})
+  else if N.eqb (a_pc r) 1 then
+    Some (s, {| a_pc := 2; a_sel := a_sel r; a_used := Some (as_edges s ++ [a_sel r]) |})
+  else None.
